@@ -78,6 +78,9 @@ def run(ctx):
     from .c07 import check_accumulators
 
     check_accumulators(ctx, P, ("BlsSignatureCore::aggregate_signatures", "BlsSignatureCore::aggregate_public_keys"))
+    # the draft signs and verifies EVERY octet string (the empty one included): no branch on the way from sign / verify to
+    # the hash reads the message itself
+    F.check_message_blind_control(ctx, "E6.msg-blind", P, ["SecretKey<C>::sign", "Signature<C>::verify", "BlsSignatureCore::core_sign", "BlsSignatureCore::core_verify"], floor=4)
     # CoreAggregateVerify of the draft: one pairing input (H(m_i), pk_i) per list entry - none merged, skipped or built
     # from another entry's message - so that what the reference verifier accepts is accepted
     fkc = "BlsSignatureCore::core_aggregate_verify"
